@@ -105,7 +105,10 @@ func SuperTriangle(points []vector2.Float64) []vector2.Float64 {
 	}
 
 	height := max.Y() - min.Y()
-	min = vector2.New(min.X(), min.Y()-2)
+	// The base sits one point-set height below the lowest point. A fixed
+	// distance (this used to be 2) puts the apex, 20 heights above the base,
+	// below the highest point as soon as the set is less than ~0.108 high.
+	min = vector2.New(min.X(), min.Y()-height)
 
 	xMiddle := (min.X() + max.X()) / 2.
 	width := max.X() - min.X()
